@@ -1820,8 +1820,14 @@ func (s suggestionListResult) Len() int {
 }
 func (s suggestionListResult) Swap(i, j int) {
 	s.Options[i], s.Options[j] = s.Options[j], s.Options[i]
+	s.Distances[i], s.Distances[j] = s.Distances[j], s.Distances[i]
 }
 func (s suggestionListResult) Less(i, j int) bool {
+	// equally distant options are ordered by name, so that the message does
+	// not depend on the (map iteration) order in which they were collected
+	if s.Distances[i] == s.Distances[j] {
+		return s.Options[i] < s.Options[j]
+	}
 	return s.Distances[i] < s.Distances[j]
 }
 
